@@ -3,38 +3,36 @@
 From Coq Require Import List NArith ZArith Bool Lia ZifyN ZifyNat ZifyBool.
 Import ListNotations.
 From GM Require Import Base.Topic Base.Msg Model.TopicMatch Model.CodecBase Model.CodecSpec Oracle.C06O
-  Proofs.CodecBaseP Proofs.CodecStrP.
+  Proofs.CodecBaseP Proofs.CodecStrP Proofs.CodecUtf8P.
 Open Scope N_scope.
 
 Ltac Zify.zify_post_hook ::= Z.div_mod_to_equations.
 
-(* ---------------------------------------------------------------- the full equivalences are false *)
+(* ---------------------------------------------------------------- equivalences that are still false *)
 Definition name_equiv : Prop := forall s, valid_topic_name_impl true s = Ok (spec_topic_name s).
 Definition name_bytes_equiv : Prop := forall s, valid_topic_name_impl false s = Ok (valid_name_spec s).
 Definition filter_equiv : Prop := forall s, valid_topic_filter_impl true s = Ok (spec_topic_filter s).
-Definition filter_bytes_equiv : Prop := forall s, valid_topic_filter_impl false s = Ok (valid_filter_spec s).
 Definition v5_filter_equiv : Prop := forall s, valid_v5_topic_impl s = Ok (spec_v5_filter s).
-Definition utf8_equiv : Prop := forall s, utf8_verdict_ok s (tb_of (valid_utf8_impl s)) = true.
 
 (* "" is accepted as a topic name *)
 Theorem name_equiv_refuted : ~ name_equiv.
 Proof. intro H. specialize (H []). vm_compute in H. discriminate. Qed.
 Theorem name_bytes_equiv_refuted : ~ name_bytes_equiv.
 Proof. intro H. specialize (H []). vm_compute in H. discriminate. Qed.
-(* "+a" is accepted as a topic filter *)
+(* U+FFFD (EF BF BD) is a legal character, but with mustUTF8 the topic predicates still take
+   utf8.RuneError for an encoding error *)
 Theorem filter_equiv_refuted : ~ filter_equiv.
-Proof. intro H. specialize (H [43; 97]). vm_compute in H. discriminate. Qed.
-Theorem filter_bytes_equiv_refuted : ~ filter_bytes_equiv.
-Proof. intro H. specialize (H [43; 97]). vm_compute in H. discriminate. Qed.
-(* "$share/g/+a" is accepted as a shared subscription filter *)
+Proof. intro H. specialize (H [239; 191; 189]). vm_compute in H. discriminate. Qed.
 Theorem v5_filter_equiv_refuted : ~ v5_filter_equiv.
-Proof. intro H. specialize (H [36; 115; 104; 97; 114; 101; 47; 103; 47; 43; 97]). vm_compute in H. discriminate. Qed.
-(* U+FFFD (EF BF BD) is refused although it is a legal character *)
-Theorem utf8_equiv_refuted : ~ utf8_equiv.
 Proof. intro H. specialize (H [239; 191; 189]). vm_compute in H. discriminate. Qed.
 (* U+0000 is accepted inside a topic name by ValidTopicName(true, ..) *)
 Theorem name_accepts_nul : valid_topic_name_impl true [97; 0] = Ok true /\ spec_topic_name [97; 0] = false.
 Proof. split; vm_compute; reflexivity. Qed.
+(* repaired: "+a", "+a/#", "$share/g/+a" are refused *)
+Lemma plus_prefix_refused :
+  valid_topic_filter_impl true [43; 97] = Ok false /\ valid_topic_filter_impl false [43; 97; 47; 35] = Ok false
+  /\ valid_v5_topic_impl [36; 115; 104; 97; 114; 101; 47; 103; 47; 43; 97] = Ok false.
+Proof. repeat split; vm_compute; reflexivity. Qed.
 
 (* ---------------------------------------------------------------- runes and bytes *)
 (* a multi-byte rune consists of bytes >= 128 *)
@@ -103,4 +101,56 @@ Theorem name_bytes_partial : forall s, kf_t_name_empty s = false ->
 Proof.
   intros s H. unfold valid_topic_name_impl. rewrite valid_topic_name_loop_bytes by lia.
   unfold valid_name_spec. unfold kf_t_name_empty in H. rewrite H. reflexivity.
+Qed.
+
+(* ---------------------------------------------------------------- ValidUTF8 *)
+(* ValidUTF8 gives the verdict MQTT 1.5.4 asks for on EVERY byte string: it accepts what must be
+   accepted, and refuses only ill-formed UTF-8, U+0000 and control characters (which a receiver
+   may refuse) *)
+Theorem utf8_verdict : forall s, utf8_verdict_ok s (tb_of (valid_utf8_impl s)) = true.
+Proof.
+  intros s. rewrite valid_utf8_impl_spec. cbn [tb_of]. unfold utf8_verdict_ok.
+  destruct (spec_utf8 s) eqn:E1; destruct (has_ctl s) eqn:E2; cbn [andb negb orb]; try reflexivity; assumption.
+Qed.
+
+(* every string of a well-formed packet value (wf_str) passes ValidUTF8 *)
+Theorem wf_str_accepted : forall s, wf_str s = true -> valid_utf8_impl s = Ok true.
+Proof.
+  intros s Hw. rewrite valid_utf8_impl_spec. unfold wf_str in Hw.
+  destruct (spec_utf8 s); destruct (has_ctl s); cbn in *; try reflexivity; lia.
+Qed.
+
+(* ---------------------------------------------------------------- ValidTopicName(true, s) on strings that passed ValidUTF8 *)
+(* the decoder always calls readUTF8String(true, ..) before ValidTopicName(true, ..): on such
+   strings, if they do not contain U+FFFD, the RuneError test never fires *)
+Lemma name_loop_must : forall fuel p, valid_utf8_loop fuel p = Ok true -> has_fffd p = false ->
+  valid_topic_name_loop fuel true p = valid_topic_name_loop fuel false p.
+Proof.
+  induction fuel; intros p H Hf; [reflexivity|]. cbn [valid_utf8_loop valid_topic_name_loop] in *.
+  destruct p as [|p0 t] eqn:Ep; [reflexivity|]. rewrite <- Ep in *.
+  assert (Hp : p <> []) by (subst; discriminate).
+  destruct (decode_rune_size p Hp) as [H1 _].
+  pose proof (rune_error_size1 p Hf) as Hre.
+  destruct (decode_rune p) as [ru size]. cbn [fst snd] in *.
+  destruct (ru <=? 31); [discriminate|]. destruct ((127 <=? ru) && (ru <=? 159)); [discriminate|].
+  destruct (N.eqb_spec ru RUNE_ERROR) as [Er|Er].
+  { rewrite (Hre Er Hp) in H. cbn in H. discriminate. }
+  cbn [andb] in *. destruct (negb (valid_rune ru)); [discriminate|].
+  destruct ((size =? 1) && ((p0 =? PLUS) || (p0 =? HASH))); [reflexivity|].
+  replace (size =? 0) with false in H by lia.
+  destruct (slice_from size p) as [p'| | |] eqn:Es; cbn [bind] in *; try reflexivity.
+  apply IHfuel; [assumption|]. unfold slice_from in Es. destruct (shorter p size); [discriminate|].
+  inversion Es. now apply has_fffd_dropN.
+Qed.
+
+(* ValidTopicName(true, s) on every non-empty string the decoder passes to it, U+FFFD apart,
+   gives the verdict of the specification *)
+Theorem name_decoder_partial : forall s,
+  valid_utf8_impl s = Ok true -> kf_t_fffd s = false -> kf_t_name_empty s = false ->
+  valid_topic_name_impl true s = Ok (spec_topic_name s).
+Proof.
+  intros s Hu Hf He. unfold valid_topic_name_impl. rewrite name_loop_must by assumption.
+  fold (valid_topic_name_impl false s). rewrite name_bytes_partial by assumption.
+  unfold spec_topic_name. rewrite valid_utf8_impl_spec in Hu.
+  destruct (spec_utf8 s); [reflexivity|]. cbn in Hu. discriminate.
 Qed.
